@@ -1,6 +1,7 @@
 package rules
 
 import (
+	"sort"
 	"fmt"
 	"go/token"
 	"go/types"
@@ -103,6 +104,8 @@ func c06(c *eng.Ctx, r *eng.Report) {
 		"R6.4 no floating-point value flows into an amount except through Float64ToBigInt at the reviewed stake sites. " +
 		"R6.5 a failed transaction is rolled back through the journal, so the journal entries that carry balances (storageChange: balances and token slots live in account data; suicideChange: the balance a self-destruct zeroed) are undone by exactly their paired raw writes on every path through undo (the C04 pairing rule applied to these entries). " +
 		"R6.7 the affordability pre-check of a contract transaction prices the gas limit the transaction asked for (raw.GasLimit as decoded, never a smaller, capped figure): execution only ever lowers that limit, so the fee it bills is covered — a pre-check that caps differently from execution lets a debit be refused silently (SubBalance does nothing when funds are short) while the fee account is credited in full; " +
+		"R6.12 the gas the EVM may spend is the gas the sender is billed against: in contractExecutor.Execute the limit in vmCtx.GasLimit = limit − intrinsicGas and the limit in gasUsed = limit − leftOverGas are fed by the same values (the requested limit and every per-height ceiling) — a budget taken before the clamp and a bill taken after it make leftOverGas exceed the billed limit, gasUsed wraps, the sender's debit fails silently and the fee account is credited ~1.8e28 wei; " +
+		"R6.13 (= R4.2) every raw setter of balances, nonces, storage and code is dominated by its journal append, so the revert of a failed transaction restores what the fee step and earlier writes left (an append skipped because the journal's top entry is 'the same slot' ignores the snapshot taken in between); " +
 		"R6.11 the amount locked for a stake is the amount later refunded: Float64ToBigInt multiplies a float64 by 10^18 in a big.Float whose precision was set, before the multiplication, to a constant of at least 113 bits (53 bits of mantissa times the 60 bits of 10^18) — at the default 53 bits a stake of 2365 locks 2364999999999999737856 wei while the refund path pays back the exact integer; " +
 		"R6.10 balances have one source of truth, the journaled storage: AccountDB/accountObject gain no field that is neither journaled nor reviewed (C04's R4.11 here — a cache of decoded balances that RevertToSnapshot does not drop lets a spend pass its affordability check on rolled-back funds); " +
 		"R6.8 the free gas a value-bearing CALL/CALLCODE hands its callee is the constant CallStipend, which is below the CallValueTransferGas the caller was charged: a stipend that grows (scaled with proposal 026 while the price is not) lets a loop of 1-wei calls end with more gas than the limit, `gasLimit - leftOverGas` wraps, the sender's debit is refused and the fee account is still credited; " +
@@ -122,6 +125,16 @@ func c06(c *eng.Ctx, r *eng.Report) {
 	// R6.10: no unjournaled mirror of balances on the state object (C04's struct census under this property's id)
 	c04StructCensusAs(c, r, "R6.10")
 	c06StakeConversionExact(c, r)
+	c06GasBudgetIsBilledLimit(c, r)
+	// R6.13: a failed transaction is rolled back to the snapshot taken before it — every raw state setter is preceded
+	// by its journal entry on every path (C04's R4.2 re-run under this property's id)
+	sub2 := eng.NewReport(r.Prop, r.Tier)
+	c04Journaled(c, sub2)
+	for _, o := range sub2.Obls {
+		o.Rule = "R6.13"
+		r.Obls = append(r.Obls, o)
+	}
+	r.Min("R6.13", 8)
 	// R6.6: locked stake is part of the conserved total (the `lock` class of R6.1): what a refund pays out is exactly
 	// what it takes off the miner's recorded stake (C20's R20.3 re-run under this property's id)
 	sub := eng.NewReport(r.Prop, r.Tier)
@@ -644,4 +657,69 @@ func c06StakeConversionExact(c *eng.Ctx, r *eng.Report) {
 		}
 	}
 	r.Check(ok, rule, "stake-conversion:exact", c.Pos(mul.Pos()), fmt.Sprintf("the product is computed at %d bits of precision", got), fmt.Sprintf("Float64ToBigInt multiplies by 10^18 in a big.Float of %d bits: the product of a 53-bit mantissa and 10^18 needs up to 113 bits, so it is rounded — AddMiner/AddStake lock 2364999999999999737856 wei for a stake of 2365 while the refund path (Uint64ToBigInt) pays back 2365·10^18: the round trip mints 262144 wei", got))
+}
+
+// c06GasBudgetIsBilledLimit: see R6.12.
+func c06GasBudgetIsBilledLimit(c *eng.Ctx, r *eng.Report) {
+	const rule = "R6.12"
+	r.Min(rule, 1)
+	fn := c.Func("executor", "(*contractExecutor).Execute")
+	if !r.Anchor(fn != nil, rule, "executor.(*contractExecutor).Execute") {
+		return
+	}
+	var budget, billed ssa.Value
+	var billedPos token.Pos
+	for _, b := range fn.Blocks {
+		for _, in := range b.Instrs {
+			switch x := in.(type) {
+			case *ssa.Store:
+				if t, f := eng.FieldOf(x.Addr); f == "GasLimit" && strings.HasSuffix(t, "vm.Context") {
+					if bo, ok := x.Val.(*ssa.BinOp); ok && bo.Op == token.SUB {
+						budget = eng.ResolveLocal(bo.X)
+					}
+				}
+			case *ssa.BinOp:
+				if x.Op != token.SUB {
+					continue
+				}
+				// limit − leftOverGas: the subtrahend comes out of the EVM call
+				if strings.Contains(eng.Desc(x.Y), ".Create(") || strings.Contains(eng.Desc(x.Y), ".Call(") {
+					billed = eng.ResolveLocal(x.X)
+					billedPos = x.Pos()
+				}
+			}
+		}
+	}
+	if !r.Anchor(budget != nil && billed != nil, rule, "Execute: vmCtx.GasLimit = limit − intrinsicGas and gasUsed = limit − leftOverGas") {
+		return
+	}
+	// the two sites sit under two separate IsProposal015() tests, so the billed value is a phi of the budget's value
+	// and the untouched limit: compare what can flow into each (the requested limit and every ceiling)
+	leaves := func(v ssa.Value) string {
+		set := map[string]bool{}
+		seen := map[ssa.Value]bool{}
+		var walk func(v ssa.Value)
+		walk = func(v ssa.Value) {
+			if v == nil || seen[v] {
+				return
+			}
+			seen[v] = true
+			if phi, ok := v.(*ssa.Phi); ok {
+				for _, e := range phi.Edges {
+					walk(e)
+				}
+				return
+			}
+			set[eng.Desc(v)] = true
+		}
+		walk(v)
+		var out []string
+		for k := range set {
+			out = append(out, k)
+		}
+		sort.Strings(out)
+		return strings.Join(out, " | ")
+	}
+	lb, ll := leaves(budget), leaves(billed)
+	r.Check(budget == billed || lb == ll, rule, "gas-budget:billed-limit", c.Pos(billedPos), "budget and bill are computed from the same limit and ceilings ("+lb+")", "contractExecutor.Execute gives the EVM a budget computed from {"+lb+"} but bills gasUsed against {"+ll+"}: when the requested limit exceeds the per-height ceiling by more than the gas actually used, leftOverGas is larger than the billed limit, gasUsed wraps around uint64, the fee (~1.8e28 wei) cannot be debited from the sender — SubBalance fails silently — and is still credited to the fee account")
 }
